@@ -109,6 +109,7 @@ def missing_translations(headers, translatable, sheet):
     cols = []
     for h in headers:
         base, sep, lang = h.partition("::")
+        lang = " ".join(lang.split())      # header tokens are cleaned: runs of white space (incl. non-breaking) are one space
         if base in translatable:
             seen.setdefault(lang if sep else "default", []).append(base)
             if base not in cols:
